@@ -20,7 +20,7 @@ from .. import cover, emmon, gen, ref, world
 LEVEL = 'exploration'
 JOBS = {'quick': 4, 'thorough': 16}
 REQUIRED_MONITORS = ('em_shape_contract', 'locality', 'retained_results')
-REQUIRED_CLASSES = ('reference:two-atoms-bond-length-changed', 'reference:one-atom', 'scale:zero', 'scale:two', 'deformation:none-or-one-ulp', 'deformation:small', 'deformation:large', 'displaced:anchor', 'displaced:frame-neighbour',
+REQUIRED_CLASSES = ('reference:through-the-parsers', 'reference:two-atoms-bond-length-changed', 'reference:one-atom', 'scale:zero', 'scale:two', 'deformation:none-or-one-ulp', 'deformation:small', 'deformation:large', 'displaced:anchor', 'displaced:frame-neighbour',
                     'displaced:other', 'displacement:small', 'displacement:far', 'embedded:extrapolate',
                     'geometry:generic', 'geometry:partial-collinear', 'geometry:linear-z', 'argument:same-object-mutated-in-place',
                     'argument:fresh-copy')
@@ -112,7 +112,14 @@ def run_gen(ctx, case):
             s = [0.0, 2.0][case['batch'] % 2]
             scls = 'end-of-range'
             ctx.hit('scale:zero' if s == 0.0 else 'scale:two')
-        refm, tgtm = emmon.build_pair(rng, edges, pos, tpos)
+        through_files = it in (2, 6)
+        refm, tgtm = emmon.build_pair(rng, edges, pos, tpos, multi_res=(it % 2 == 1), files=through_files)
+        if through_files:
+            pos = np.array(refm.atoms_positions)          # the three-decimal coordinates of the file
+            if gen.min_pair_distance(pos) < 1e-3 or not emmon.frames_ok(n, edges, pos):
+                ctx.count('rejected_reference')
+                continue
+            ctx.hit('reference:through-the-parsers')
         emap = ExchangeMap(refm, tgtm, s)
         model = emap.__dict__['_gmv_model']
         ctx.hit('geometry:' + info['geometry'])
